@@ -34,7 +34,7 @@ The important thing is: don't take the results of `resolve_*_type` as the actual
 """
 
 # Std-Lib Imports
-from typing import Union, Callable
+from typing import Union, Callable, Iterable, List
 
 # Local imports
 from ...portref import PortRef
@@ -100,11 +100,18 @@ def resolve_portref_type(
     return failer(f"Invalid PortRef {pref}")
 
 
+def ordered_ports(ports: Iterable[PortRef]) -> List[PortRef]:
+    """Order a set of `PortRef`s by instance and port name.
+    Sets of `PortRef`s iterate in an order which depends on memory addresses and the string-hash seed.
+    Wherever that order would reach the order of connections, signals, or names, visit them in this order instead."""
+    return sorted(ports, key=lambda p: (p.inst.name or "", p.portname))
+
+
 def update_ref_deps(ref: Union[PortRef, BundleRef], resolved: Connectable):
     """Update all downstream dependencies on a `Ref` after it has been resolved to `resolved`."""
 
     # Reconnect all connected ports
-    for connected_port in list(ref._connected_ports):
+    for connected_port in ordered_ports(ref._connected_ports):
         connected_port.inst.replace(connected_port.portname, resolved)
 
     # Update all dependent slices and concats
